@@ -182,6 +182,7 @@ func runAll(c *fw.Ctx) {
 	g1(c)
 	g2(c)
 	g2special(c)
+	g2identity(c)
 	g3(c)
 	g4(c)
 }
